@@ -18,9 +18,12 @@ def run(ctx):
     st_stmt.run_stage(ctx, ["C13_"])
     # cluster part: the Cache calls of real scheduling cycles (every action, statement commit brackets from the
     # verif hook): each pod is bound / nominated / evicted at most once per committed statement and per cycle
-    n = 200 if ctx.quick else 5000
+    n = 400 if ctx.quick else 6000
     st_cluster.run_stage(ctx, ["C13_"], [("mixed", n // 2), ("full", n // 4), ("elastic", n // 4)])
 
 
 def replay(ctx, obj):
+    if obj.get("replay", {}).get("module") == st_cluster.MODULE:
+        st_cluster.replay_stage(ctx, obj, ["C13_"])
+        return
     st_stmt.replay_one(ctx, obj, ["C13_"])
